@@ -296,12 +296,15 @@ pub fn engine(rep: &mut Report, focus: &str, n: usize, seed: u64, thorough: bool
     }
     if focus == "C02" || focus == "C03" {
         look_scope(rep, &mut rng, focus, thorough);
+        crate::scope::class_boundary_scope(rep, &mut rng, thorough);
     }
     if focus == "C04" {
         crate::scope::prefix_scope(rep, &mut rng, thorough);
+        crate::scope::literal_scope(rep, &mut rng, thorough);
     }
     if focus == "C01" {
         crate::scope::run_spec_probes(rep);
+        crate::scope::backref_scope(rep);
     }
     if matches!(focus, "C01" | "C02" | "C03" | "C05") {
         crate::scope::loop_scope(rep, &mut rng, focus, thorough);
